@@ -449,7 +449,7 @@ fn fn_program(kind: usize, def: Option<Q>, a: usize, b: usize) -> Option<Expect>
                 return None;
             }
             let text = format!(
-                "{}DECLARE FUNCTION {} ()\nPRINT {}\nFUNCTION {}\n{} = {}\n{} = {}\nPRINT {}\nEND FUNCTION\n",
+                "{}DECLARE FUNCTION {} ()\nPRINT {}\nFUNCTION {}\n{} = {}\n{} = {}\nEND FUNCTION\n",
                 head,
                 spell("Nam", s0, 0),
                 spell("Nam", s0, 1),
@@ -458,7 +458,6 @@ fn fn_program(kind: usize, def: Option<Q>, a: usize, b: usize) -> Option<Expect>
                 lit(q, 5).0,
                 spell("Nam", s, 2),
                 lit(q, 8).0,
-                spell("Nam", s, 0),
             );
             Some(Expect { text, want: Ok(String::new()), label: format!("FUNCTION {:?}, spelling {:?} assigned twice inside, default {:?}", s0, s, def), sigkey: "unjudged: other spelling inside a function".into() })
         }
